@@ -380,11 +380,22 @@ def listing_rules(facts, rep, w, rule="R09.4"):
     if inserts:
         cb, s, tr = inserts[0]
         gs = ov.guards(cb, s.bb)
+        def via_resolver(t):
+            # the looked-up path comes out of the overlay's resolver (which consults the deletion marker first), not from a
+            # bare per-layer join
+            for x in walk(t):
+                if x[0] == "call" and isinstance(x[1], str):
+                    hb = ov.inter.body_of_call(x)
+                    if hb is not None and hb.impl and hb.impl["self_ty"] == w.overlay and ov._is_resolver(hb):
+                        return True
+            return False
         ex = ov.u_exists(gs, ov.is_key, True) or any(
             g[0] == "bool" and g[2] is True and peel(g[1])[0] == "call" and sname(peel(g[1])[1]) == "exists" and
-            ov.is_resolved(peel(g[1])[2][0]) for g in gs)
+            ov.is_resolved(peel(g[1])[2][0]) and via_resolver(peel(g[1])[2][0]) for g in gs)
         n += 1
-        rep.ob(rule, b.id, "union exists before listing", ex, "" if ex else "listing does not start with a union lookup of the directory", s.line)
+        rep.ob(rule, b.id, "union exists before listing", ex, "" if ex else
+               "listing does not start with a union lookup of the directory through the resolver: the directory's own deletion marker "
+               "is not consulted, so a removed lower-layer directory still lists (as empty) instead of being not-found", s.line)
     # marker subtraction
     n += 1
     rep.ob(rule, b.id, "markers subtracted from the listing", len(removes) >= 1, "%d set remove site(s)" % len(removes), b.span)
